@@ -239,7 +239,8 @@ Proof.
     set (s1 := if live (th s (cur s)) then upd_th s t (set_live (th s t) false) else s).
     assert (H1 : tinv s1) by (unfold s1; destruct (live (th s (cur s))); [apply tinv_upd_th; [exact Ht | reflexivity | reflexivity] | exact Ht]).
     destruct (memb t (paused s1)); [|exact H1].
-    apply tinv_enqueue. apply tinv_with_paused; [exact H1 | apply psorted_remove1; apply (t_sorted s1 H1)].
+    apply tinv_enqueue. apply tinv_upd_th; [|reflexivity|reflexivity].
+    apply tinv_with_paused; [exact H1 | apply psorted_remove1; apply (t_sorted s1 H1)].
   - unfold thread_join. destruct (negb (live (th s t))); cbn [fst]; [exact Ht|].
     apply tinv_block; try assumption; reflexivity.
   - unfold thread_sleep. destruct forever; cbn [fst].
